@@ -853,12 +853,16 @@ func findSegmentData(segs []*MediaSegment, refTrak *TrakBox, trex *TrexBox) ([]s
 		if dur > math.MaxUint32 {
 			return nil, fmt.Errorf("segment duration %d does not fit in the 32 bits of a sidx reference", dur)
 		}
+		segSize := seg.Size()
+		if segSize > math.MaxInt32 {
+			return nil, fmt.Errorf("segment size %d does not fit in the 31 bits of a sidx reference", segSize)
+		}
 		sd := segData{
 			startPos:         seg.StartPos,
 			presentationTime: uint64(int64(baseTime) + firstCompositionTimeOffest),
 			baseDecodeTime:   baseTime,
 			dur:              uint32(dur),
-			size:             uint32(seg.Size()),
+			size:             uint32(segSize),
 		}
 		segDatas = append(segDatas, sd)
 	}
